@@ -302,6 +302,14 @@ def zrle_corpus():
             z = zlib.compressobj()
             comp = z.compress(pre + tile) + z.flush(zlib.Z_SYNC_FLUSH)
             out.append((hs + struct.pack("!BxH", 0, 1) + struct.pack("!HHHHi", 0, 0, w, h, 16) + struct.pack("!I", len(comp)) + comp + b"\x02", "zrle-corpus"))
+    # a hostile server ENDS its zlib stream (a conforming one keeps a single stream open for the whole connection): blocks made
+    # of one, two or three complete streams, and of a complete stream followed by the start of another
+    solid = bytes([1, 9, 8, 7])
+    for streams in ([solid], [solid, solid], [solid, solid, solid], [solid, b""], [b"", b""]):
+        comp = b"".join(zlib.compress(x) for x in streams)
+        for extra in (b"", zlib.compressobj().compress(solid)):
+            blk = comp + extra
+            out.append((hs + struct.pack("!BxH", 0, 1) + struct.pack("!HHHHi", 0, 0, 1, 1, 16) + struct.pack("!I", len(blk)) + blk + b"\x02", "zrle-finished-streams"))
     return out
 
 
